@@ -1,7 +1,7 @@
 CONSTANTS
   MaxCmds = 3
   MaxPending = 3
-  MaxNum = 2
+  MaxNum = 1
   MaxItems = 1
   MaxUid = 1
   MaxCode = 1
@@ -10,6 +10,7 @@ CONSTANTS
   Greetings = {"OK"}
   SimDepth = 0
   Count = FALSE
+  MaxDepth = 0
 INIT GenInit
 NEXT GenNext
 VIEW GenView
